@@ -660,6 +660,849 @@ Proof.
   rewrite N.eqb_refl. destruct (N.eqb_spec (rid r) id) as [E|_]; [contradiction|reflexivity].
 Qed.
 
+
+(* ================================================================================================ *)
+(* Part B2: "the stream has ended" as a specification function, and its conservation                  *)
+(* ================================================================================================ *)
+
+(* [ends_from]: walking the remaining bytes w from position (prem, pad) exactly like [content_from],
+   a terminator of stream sg (its empty record, or the first record of a later stream of this request)
+   is met before an AbortRequest of this request, an unknown version, or the end of the bytes. *)
+Section Ends.
+Variable role id : N.
+
+Definition ef_body (rec : option N -> N -> N -> bytes -> bool) (sg : option N) (prem pad : N) (w : bytes) : bool :=
+  if 0 <? prem then (if len w <? prem then false else rec sg 0 pad (drop prem w))
+  else if 0 <? pad then (if len w <=? pad then false else rec sg 0 0 (drop pad w))
+  else if len w <? HEADER_LEN then false
+  else
+    let head := take HEADER_LEN w in
+    let rest := drop HEADER_LEN w in
+    match hdr_decode head with
+    | HBadVersion _ => false
+    | HBadType _ => rec sg (be16 (nthN head 4) (nthN head 5)) (nthN head 6) rest
+    | HOk t rid cl pl =>
+      if is_input_stream t && (rid =? id) then
+        match cmp_input_streams role t sg with
+        | Some Eq => if cl =? 0 then true else rec sg cl pl rest
+        | Some Lt => rec sg cl pl rest
+        | Some Gt => true
+        | None => false
+        end
+      else if (t =? RT_AbortRequest) && (rid =? id) then false
+      else rec sg cl pl rest
+    end.
+
+Fixpoint ends_from (fuel : nat) (sg : option N) (prem pad : N) (w : bytes) : bool :=
+  match fuel with
+  | O => false
+  | S f => ef_body (ends_from f) sg prem pad w
+  end.
+
+Lemma ends_from_S f sg prem pad w : ends_from (S f) sg prem pad w = ef_body (ends_from f) sg prem pad w.
+Proof. reflexivity. Qed.
+
+Lemma ef_body_ext (r1 r2 : option N -> N -> N -> bytes -> bool) sg prem pad w :
+  (forall sg' prem' pad' w', (length w' < length w)%nat -> r1 sg' prem' pad' w' = r2 sg' prem' pad' w') ->
+  ef_body r1 sg prem pad w = ef_body r2 sg prem pad w.
+Proof.
+  intros H. unfold ef_body.
+  destruct (N.ltb_spec 0 prem) as [Hp|Hp].
+  - destruct (N.ltb_spec (len w) prem) as [Hl|Hl]; [reflexivity|].
+    apply H. apply drop_shorter; lia.
+  - destruct (N.ltb_spec 0 pad) as [Hq|Hq].
+    + destruct (N.leb_spec (len w) pad) as [Hl|Hl]; [reflexivity|].
+      apply H. apply drop_shorter; lia.
+    + destruct (N.ltb_spec (len w) HEADER_LEN) as [Hl|Hl]; [reflexivity|].
+      assert (Hs : (length (drop HEADER_LEN w) < length w)%nat).
+      { apply drop_shorter; unfold HEADER_LEN in *; lia. }
+      cbv zeta.
+      destruct (hdr_decode (take HEADER_LEN w)) as [t rid cl pl|v|t].
+      * destruct (is_input_stream t && (rid =? id)).
+        -- destruct (cmp_input_streams role t sg) as [[| |]|]; try reflexivity.
+           ++ apply H; exact Hs.
+           ++ destruct (cl =? 0); [reflexivity|]. apply H; exact Hs.
+        -- destruct ((t =? RT_AbortRequest) && (rid =? id)); [reflexivity|]. apply H; exact Hs.
+      * reflexivity.
+      * apply H; exact Hs.
+Qed.
+
+Lemma ends_from_fuel f1 : forall f2 sg prem pad w,
+  (length w < f1)%nat -> (length w < f2)%nat ->
+  ends_from f1 sg prem pad w = ends_from f2 sg prem pad w.
+Proof.
+  induction f1 as [|f1 IH]; intros f2 sg prem pad w H1 H2; [lia|].
+  destruct f2 as [|f2]; [lia|].
+  rewrite !ends_from_S. apply ef_body_ext.
+  intros sg' prem' pad' w' Hw. apply IH; lia.
+Qed.
+
+Definition EF (sg : option N) (prem pad : N) (w : bytes) : bool :=
+  ends_from (content_fuel w) sg prem pad w.
+
+Lemma EF_eq sg prem pad w : EF sg prem pad w = ef_body EF sg prem pad w.
+Proof.
+  unfold EF at 1. unfold content_fuel.
+  replace (length w + 2)%nat with (S (length w + 1)) by lia.
+  rewrite ends_from_S. apply ef_body_ext.
+  intros sg' prem' pad' w' Hw. unfold EF, content_fuel. apply ends_from_fuel; lia.
+Qed.
+
+Lemma EF_prem sg prem pad w : 0 < prem ->
+  EF sg prem pad w = if len w <? prem then false else EF sg 0 pad (drop prem w).
+Proof. intros H. rewrite EF_eq at 1. unfold ef_body. rewrite (ltb_0_pos _ H). reflexivity. Qed.
+
+Lemma EF_pad sg pad w : 0 < pad ->
+  EF sg 0 pad w = if len w <=? pad then false else EF sg 0 0 (drop pad w).
+Proof. intros H. rewrite EF_eq at 1. unfold ef_body. rewrite ltb_0_0, (ltb_0_pos _ H). reflexivity. Qed.
+
+Definition ef_hd (sg : option N) (head rest : bytes) : bool :=
+  match hdr_decode head with
+  | HBadVersion _ => false
+  | HBadType _ => EF sg (be16 (nthN head 4) (nthN head 5)) (nthN head 6) rest
+  | HOk t rid cl pl =>
+    if is_input_stream t && (rid =? id) then
+      match cmp_input_streams role t sg with
+      | Some Eq => if cl =? 0 then true else EF sg cl pl rest
+      | Some Lt => EF sg cl pl rest
+      | Some Gt => true
+      | None => false
+      end
+    else if (t =? RT_AbortRequest) && (rid =? id) then false
+    else EF sg cl pl rest
+  end.
+
+Lemma EF_head sg w : HEADER_LEN <= len w ->
+  EF sg 0 0 w = ef_hd sg (take HEADER_LEN w) (drop HEADER_LEN w).
+Proof.
+  intros H. rewrite EF_eq at 1. unfold ef_body. rewrite !ltb_0_0.
+  destruct (N.ltb_spec (len w) HEADER_LEN) as [Hl|Hl]; [lia|]. reflexivity.
+Qed.
+
+Lemma EF_short sg w : len w < HEADER_LEN -> EF sg 0 0 w = false.
+Proof.
+  intros H. rewrite EF_eq at 1. unfold ef_body. rewrite !ltb_0_0.
+  destruct (N.ltb_spec (len w) HEADER_LEN) as [Hl|Hl]; [reflexivity|lia].
+Qed.
+
+Lemma EF_nil sg prem pad : EF sg prem pad [] = false.
+Proof.
+  rewrite EF_eq. unfold ef_body. change (len (@nil N)) with 0.
+  destruct (N.ltb_spec 0 prem) as [Hp|Hp].
+  - destruct (N.ltb_spec 0 prem) as [_|Hl]; [reflexivity|lia].
+  - destruct (N.ltb_spec 0 pad) as [Hq|Hq].
+    + destruct (N.leb_spec 0 pad) as [_|Hl]; [reflexivity|lia].
+    + reflexivity.
+Qed.
+
+Lemma EF_adv sg prem pad w n : n <= prem -> n <= len w ->
+  EF sg prem pad w = EF sg (prem - n) pad (drop n w).
+Proof.
+  intros Hn Hw.
+  destruct (N.eq_dec n 0) as [->|Hn0].
+  { rewrite drop_0, N.sub_0_r. reflexivity. }
+  rewrite (EF_prem sg prem) by lia.
+  destruct (N.eq_dec n prem) as [->|Hne].
+  - rewrite N.sub_diag.
+    destruct (N.ltb_spec (len w) prem) as [Hl|Hl]; [lia|]. reflexivity.
+  - rewrite (EF_prem sg (prem - n)) by lia.
+    rewrite len_drop, drop_drop.
+    replace (n + (prem - n)) with prem by lia.
+    destruct (N.ltb_spec (len w - n) (prem - n)); destruct (N.ltb_spec (len w) prem); try reflexivity; lia.
+Qed.
+
+Lemma EF_pad_adv sg pad w n : n <= pad -> n <= len w ->
+  EF sg 0 pad w = EF sg 0 (pad - n) (drop n w).
+Proof.
+  intros Hn Hw.
+  destruct (N.eq_dec n 0) as [->|Hn0].
+  { rewrite drop_0, N.sub_0_r. reflexivity. }
+  rewrite (EF_pad sg pad) by lia.
+  destruct (N.eq_dec n pad) as [->|Hne].
+  - rewrite N.sub_diag.
+    destruct (N.leb_spec (len w) pad) as [Hl|Hl].
+    + rewrite (drop_all pad w) by lia. rewrite EF_nil. reflexivity.
+    + reflexivity.
+  - rewrite (EF_pad sg (pad - n)) by lia.
+    rewrite len_drop, drop_drop.
+    replace (n + (pad - n)) with pad by lia.
+    destruct (N.leb_spec (len w - n) (pad - n)); destruct (N.leb_spec (len w) pad); try reflexivity; lia.
+Qed.
+
+Lemma EF_head_app sg raw u : HEADER_LEN <= len raw ->
+  EF sg 0 0 (raw ++ u) = ef_hd sg (take HEADER_LEN raw) (drop HEADER_LEN raw ++ u).
+Proof.
+  intros H. rewrite EF_head by (rewrite len_app; lia).
+  rewrite (take_app_le HEADER_LEN raw u H), (drop_app_le HEADER_LEN raw u H). reflexivity.
+Qed.
+
+(* standing at the terminator: ended, and nothing more to come *)
+Lemma at_terminator_EF sg prem pad raw u : at_terminator role id sg prem pad raw = true ->
+  prem = 0 /\ pad = 0 /\ EF sg 0 0 (raw ++ u) = true /\ CF role id sg false 0 0 (raw ++ u) = [].
+Proof.
+  unfold at_terminator. intros H.
+  apply andb_true_iff in H. destruct H as [H H4].
+  apply andb_true_iff in H. destruct H as [H H3].
+  apply andb_true_iff in H. destruct H as [H1 H2].
+  apply N.eqb_eq in H1. apply N.eqb_eq in H2. apply N.leb_le in H3.
+  split; [exact H1|]. split; [exact H2|].
+  rewrite (EF_head_app sg raw u H3), (CF_head_app role id sg false raw u H3). unfold ef_hd, cf_hd.
+  destruct (hdr_decode (take HEADER_LEN raw)) as [t rid cl pl|v|t]; try discriminate H4.
+  apply andb_true_iff in H4. destruct H4 as [Hin Hc]. rewrite Hin.
+  destruct (cmp_input_streams role t sg) as [[| |]|]; try discriminate Hc.
+  - rewrite Hc. split; reflexivity.
+  - split; reflexivity.
+Qed.
+
+(* record level *)
+Lemma EF_body sg b q w : EF sg (len b) (len q) (b ++ q ++ w) = EF sg 0 0 w.
+Proof.
+  rewrite (EF_adv sg (len b) (len q) (b ++ q ++ w) (len b)) by (rewrite ?len_app; lia).
+  rewrite drop_len_app, N.sub_diag.
+  rewrite (EF_pad_adv sg (len q) (q ++ w) (len q)) by (rewrite ?len_app; lia).
+  rewrite drop_len_app, N.sub_diag. reflexivity.
+Qed.
+
+Lemma EF_record sg r w : rcd_ok r -> sel_ok sg ->
+  EF sg 0 0 (enc_rcd r ++ w) =
+  match rcd_effect_on role id sg r with
+  | EBody _ | ESkip => EF sg 0 0 w
+  | ETerminator => true
+  | EAbort => false
+  end.
+Proof.
+  intros Hr Hs. rewrite enc_rcd_app.
+  rewrite EF_head by apply len_hdr8_app. rewrite take8_hdr8, drop8_hdr8.
+  unfold ef_hd. rewrite (hdr_decode_hdr8 r Hr). unfold rcd_effect_on.
+  destruct (known_type (rt r)) eqn:Hk.
+  - destruct (is_input_stream (rt r) && (rid r =? id)) eqn:Hin.
+    + apply andb_true_iff in Hin. destruct Hin as [Hin _].
+      rewrite (cmp_spec_all role (rt r) sg Hin Hs).
+      destruct (spec_cmp role (rt r) sg).
+      * rewrite EF_body. reflexivity.
+      * destruct (len (rbody r) =? 0); [reflexivity|]. rewrite EF_body. reflexivity.
+      * reflexivity.
+    + destruct ((rt r =? RT_AbortRequest) && (rid r =? id)); [reflexivity|].
+      rewrite EF_body. reflexivity.
+  - destruct (unknown_not_special _ Hk) as (-> & -> & _ & _). cbn [andb].
+    destruct (hdr8_fields r Hr) as (_ & -> & ->). rewrite EF_body. reflexivity.
+Qed.
+
+Theorem EF_rcds sg rs t : Forall rcd_ok rs -> sel_ok sg ->
+  EF sg 0 0 (enc_rcds rs ++ t) = ended_rcds role id sg rs || (content_open role id sg rs && EF sg 0 0 t).
+Proof.
+  intros Hrs Hs. unfold content_open.
+  induction Hrs as [|r rs Hr Hrs IH].
+  - reflexivity.
+  - rewrite enc_rcds_cons, <- app_assoc. rewrite (EF_record sg r _ Hr Hs). cbn [ended_rcds content_walk].
+    destruct (rcd_effect_on role id sg r); cbn [fst snd]; try exact IH; reflexivity.
+Qed.
+End Ends.
+
+(* E: the active stream has ended somewhere in (unparsed bytes ++ not-yet-fed bytes) *)
+Definition E (a : ast) (u : bytes) : bool :=
+  EF (r_role (a_req a)) (r_id (a_req a)) (a_stream a) (a_prem a) (a_pad a) (a_raw a ++ u).
+
+Section EndsMachine.
+Variable maxc : N.
+
+Definition e_rel (a a' : ast) : Prop :=
+  a_req a' = a_req a /\ a_stream a' = a_stream a /\ forall u, E a' u = E a u.
+
+Definition e_post (l : alstate) (fl : aflow) : Prop :=
+  match fl with
+  | AContinue l' | ABreak l' | AErr l' _ => e_rel (al l) (al l')
+  | APanic _ => True
+  end.
+
+Lemma e_rel_refl a : e_rel a a.
+Proof. split; [reflexivity|]. split; [reflexivity|]. intros u; reflexivity. Qed.
+
+Lemma e_rel_trans a1 a2 a3 : e_rel a1 a2 -> e_rel a2 a3 -> e_rel a1 a3.
+Proof.
+  intros (Q1 & S1 & E1) (Q2 & S2 & E2). split; [congruence|]. split; [congruence|].
+  intros u. rewrite E2. apply E1.
+Qed.
+
+Lemma e_post_trans l1 l2 fl : e_rel (al l1) (al l2) -> e_post l2 fl -> e_post l1 fl.
+Proof.
+  intros H12 H. destruct fl as [l'|l'|l' e|n]; cbn [e_post] in *;
+    try (apply (e_rel_trans _ _ _ H12 H)). exact I.
+Qed.
+
+Lemma pfin_E a parsed' out' st' res cap' n :
+  e_post (mkAL a res cap') (pfin' a parsed' out' st' res cap' n).
+Proof.
+  unfold pfin'. cbv zeta.
+  destruct (N.ltb_spec (N.min (a_prem a) (len (a_raw a))) n) as [Hn|Hn]; [exact I|].
+  assert (Hrel : e_rel a (mkA (a_B a) (a_space a) parsed' (drop n (a_raw a)) out' (a_req a) (a_stream a)
+                              (a_prem a - n) (a_pad a) st')).
+  { split; [reflexivity|]. split; [reflexivity|]. intros u. unfold E.
+    cbn [a_B a_space a_parsed a_raw a_out a_req a_stream a_prem a_pad a_st].
+    rewrite (EF_adv _ _ (a_stream a) (a_prem a) (a_pad a) (a_raw a ++ u) n) by (rewrite ?len_app; lia).
+    rewrite (drop_app_le n (a_raw a) u) by lia. reflexivity. }
+  match goal with |- e_post _ (if ?c then _ else _) => destruct c end; cbn [e_post al]; exact Hrel.
+Qed.
+
+Lemma payload_E l : e_post l (aparse_payload maxc l).
+Proof.
+  rewrite aparse_payload_eq. cbv zeta. destruct l as [a res cap]. cbn [al ares acap].
+  destruct (a_st a).
+  - destruct cap as [c|].
+    + apply (e_post_trans _ (mkAL a (add_stream res (N.min c (N.min (a_prem a) (len (a_raw a))))
+                 (take (N.min c (N.min (a_prem a) (len (a_raw a)))) (take (N.min (a_prem a) (len (a_raw a))) (a_raw a))))
+                 (Some (c - N.min c (N.min (a_prem a) (len (a_raw a))))))); [apply e_rel_refl|]. apply pfin_E.
+    + apply (e_post_trans _ (mkAL a (add_stream res (N.min (a_prem a) (len (a_raw a))) []) None));
+        [apply e_rel_refl|]. apply pfin_E.
+  - apply pfin_E.
+  - destruct (nv_run (take (N.min (a_prem a) (len (a_raw a))) (a_raw a))) as [ps rest].
+    destruct (len (a_raw a) <? a_prem a).
+    + apply pfin_E.
+    + apply (e_post_trans _ (mkAL a (add_output res (len (write_response (vars_of_pairs vars ps) maxc))) cap));
+        [apply e_rel_refl|]. apply pfin_E.
+Qed.
+
+Lemma hgo_E l st cl pl out added :
+  (forall u, EF (r_role (a_req (al l))) (r_id (a_req (al l))) (a_stream (al l)) cl pl (drop HEADER_LEN (a_raw (al l)) ++ u)
+             = E (al l) u) ->
+  e_post l (StreamInv.hgo l st cl pl out added).
+Proof.
+  intros H. unfold StreamInv.hgo. cbn [e_post al].
+  split; [reflexivity|]. split; [reflexivity|]. intros u. unfold E at 1.
+  cbn [a_B a_space a_parsed a_raw a_out a_req a_stream a_prem a_pad a_st]. apply H.
+Qed.
+
+Lemma head_E l : a_prem (al l) = 0 -> a_pad (al l) = 0 -> e_post l (aparse_head l).
+Proof.
+  intros Hp Hq. rewrite aparse_head_eq. cbv zeta.
+  destruct (negb (a_boundary (al l))); [exact I|].
+  destruct (N.ltb_spec (len (a_raw (al l))) HEADER_LEN) as [Hl|Hl]; [apply e_rel_refl|].
+  assert (HE : forall u, E (al l) u =
+     ef_hd (r_role (a_req (al l))) (r_id (a_req (al l))) (a_stream (al l))
+           (take HEADER_LEN (a_raw (al l))) (drop HEADER_LEN (a_raw (al l)) ++ u)).
+  { intros u. unfold E. rewrite Hp, Hq. apply EF_head_app. exact Hl. }
+  unfold ef_hd in HE.
+  destruct (hdr_decode (take HEADER_LEN (a_raw (al l)))) as [t hid cl pl|v|t].
+  - destruct (is_input_stream t && (hid =? r_id (a_req (al l)))).
+    + destruct (cmp_input_streams (r_role (a_req (al l))) t (a_stream (al l))) as [[| |]|].
+      * apply hgo_E. intros u. rewrite HE. reflexivity.
+      * destruct (cl =? 0); cbn [negb].
+        -- cbn [e_post al]. apply e_rel_refl.
+        -- apply hgo_E. intros u. rewrite HE. reflexivity.
+      * cbn [e_post al]. apply e_rel_refl.
+      * exact I.
+    + destruct ((t =? RT_AbortRequest) && (hid =? r_id (a_req (al l)))); [apply e_rel_refl|].
+      destruct ((t =? RT_BeginRequest) && negb (hid =? r_id (a_req (al l)))).
+      { apply hgo_E. intros u. rewrite HE. reflexivity. }
+      destruct ((t =? RT_GetValues) && hdr_is_management t hid); apply hgo_E; intros u; rewrite HE; reflexivity.
+  - apply e_rel_refl.
+  - apply hgo_E. intros u. rewrite HE. reflexivity.
+Qed.
+
+Lemma after_payload_E l : e_post l (after_payload l).
+Proof.
+  unfold after_payload. cbv zeta.
+  destruct (N.ltb_spec 0 (a_pad (al l))) as [Hq|Hq].
+  - destruct (N.eqb_spec (a_prem (al l)) 0) as [Hp|Hp]; cbn [negb]; [|exact I].
+    destruct (N.leb_spec (len (a_raw (al l))) (a_pad (al l))) as [Hl|Hl].
+    + cbn [e_post al]. unfold a_set. split; [reflexivity|]. split; [reflexivity|].
+      intros u. unfold E. cbn [a_B a_space a_parsed a_raw a_out a_req a_stream a_prem a_pad a_st].
+      rewrite Hp.
+      rewrite (EF_pad_adv _ _ (a_stream (al l)) (a_pad (al l)) (a_raw (al l) ++ u) (len (a_raw (al l))))
+        by (rewrite ?len_app; lia).
+      rewrite drop_len_app. reflexivity.
+    + set (l2 := mkAL (a_set (al l) (a_parsed (al l)) (drop (a_pad (al l)) (a_raw (al l))) (a_out (al l))
+                              (a_prem (al l)) 0 (a_st (al l))) (ares l) (acap l)).
+      apply (e_post_trans l l2).
+      * unfold l2, a_set. cbn [al]. split; [reflexivity|]. split; [reflexivity|].
+        intros u. unfold E. cbn [a_B a_space a_parsed a_raw a_out a_req a_stream a_prem a_pad a_st].
+        rewrite Hp.
+        rewrite (EF_pad_adv _ _ (a_stream (al l)) (a_pad (al l)) (a_raw (al l) ++ u) (a_pad (al l)))
+          by (rewrite ?len_app; lia).
+        rewrite N.sub_diag, (drop_app_le (a_pad (al l)) (a_raw (al l)) u) by lia. reflexivity.
+      * apply head_E; unfold l2, a_set; cbn [al a_prem a_pad]; [exact Hp|reflexivity].
+  - destruct (N.eq_dec (a_prem (al l)) 0) as [Hp|Hp].
+    + apply head_E; [exact Hp|lia].
+    + rewrite aparse_head_eq. cbv zeta. unfold a_boundary.
+      destruct (N.eqb_spec (a_prem (al l)) 0) as [Hz|_]; [contradiction|]. cbn [andb negb]. exact I.
+Qed.
+
+Lemma iter_E l : e_post l (aparse_iter maxc l).
+Proof.
+  rewrite aparse_iter_eq.
+  destruct (0 <? a_prem (al l)); [|apply after_payload_E].
+  pose proof (payload_E l) as H.
+  destruct (aparse_payload maxc l) as [l'|l'|l' e|n]; cbn [e_post] in H.
+  - apply (e_post_trans _ _ _ H). apply after_payload_E.
+  - exact H.
+  - exact H.
+  - exact I.
+Qed.
+
+Lemma loop_E fuel : forall l, e_post l (aparse_loop maxc fuel l).
+Proof.
+  induction fuel as [|f IH]; intros l; [exact I|].
+  cbn [aparse_loop]. destruct (a_raw (al l)) as [|b r]; [apply e_rel_refl|].
+  pose proof (iter_E l) as H.
+  destruct (aparse_iter maxc l) as [l'|l'|l' e|n]; cbn [e_post] in H.
+  - apply (e_post_trans _ _ _ H). apply IH.
+  - exact H.
+  - exact H.
+  - exact I.
+Qed.
+
+(* the end-of-stream position is conserved by every call, whatever its arguments *)
+Theorem ends_law a new dest a' s :
+  (aparse maxc a new dest = AOk a' s \/ exists e, aparse maxc a new dest = AFail a' e s) ->
+  forall u, E a (new ++ u) = E a' u.
+Proof.
+  intros Hres u. unfold aparse in Hres.
+  destruct (match dest with Some _ => negb (len (a_parsed a) =? 0) | None => false end).
+  { destruct Hres as [H|[e H]]; discriminate H. }
+  destruct (a_space a <? len new).
+  { destruct Hres as [H|[e H]]; discriminate H. }
+  cbv zeta in Hres.
+  match type of Hres with context [aparse_loop maxc ?f ?l] =>
+    pose proof (loop_E f l) as H; destruct (aparse_loop maxc f l) as [l'|l'|l' e'|n] end;
+    cbn [e_post al] in H.
+  - destruct Hres as [Hr|[e Hr]]; [|discriminate Hr]. inversion Hr; subst a' s.
+    destruct H as (_ & _ & H). rewrite H. unfold E.
+    cbn [a_B a_space a_parsed a_raw a_out a_req a_stream a_prem a_pad a_st]. rewrite <- app_assoc. reflexivity.
+  - destruct Hres as [Hr|[e Hr]]; [|discriminate Hr]. inversion Hr; subst a' s.
+    destruct H as (_ & _ & H). rewrite H. unfold E.
+    cbn [a_B a_space a_parsed a_raw a_out a_req a_stream a_prem a_pad a_st]. rewrite <- app_assoc. reflexivity.
+  - destruct Hres as [Hr|[e Hr]]; [discriminate Hr|]. inversion Hr; subst a' s.
+    destruct H as (_ & _ & H). rewrite H. unfold E.
+    cbn [a_B a_space a_parsed a_raw a_out a_req a_stream a_prem a_pad a_st]. rewrite <- app_assoc. reflexivity.
+  - destruct Hres as [Hr|[e Hr]]; discriminate Hr.
+Qed.
+
+(* ... hence by every legal operation of a concrete schedule *)
+Lemma cstep_E p op : sp_inv p -> cop_legal p op -> forall u,
+  E (abs p) (cfed_of op ++ u) = E (abs (fst (fst (cstep maxc p op)))) u.
+Proof.
+  intros Hsp Hleg u. pose proof Hsp as [HRI _].
+  destruct op as [new dest|k| |k]; cbn [cfed_of cstep cop_legal] in *.
+  - destruct (sparse_refines maxc p new dest HRI) as [Ga _].
+    pose proof (sparse_call_no_panic maxc p new dest Hsp Hleg) as Hnp.
+    destruct (sparse maxc p new dest) as [p' s|p' e s|n]; cbn [absres fst] in *.
+    + apply (ends_law (abs p) new dest (abs p') s). left. exact Ga.
+    + apply (ends_law (abs p) new dest (abs p') s). right. exists e. exact Ga.
+    + exfalso. apply (Hnp n). reflexivity.
+  - cbn [fst app]. rewrite (consume_stream_abs p k HRI). reflexivity.
+  - cbn [fst app]. rewrite (compress_abs p HRI). reflexivity.
+  - cbn [fst app]. rewrite (consume_output_abs p k HRI). reflexivity.
+Qed.
+
+Theorem csched_E ops : forall p0, sp_inv p0 -> csched_legal maxc p0 ops -> forall u,
+  E (abs p0) (cfed ops ++ u) = E (abs (cfinal maxc p0 ops)) u.
+Proof.
+  unfold cfinal. induction ops as [|op r IH]; intros p0 Hsp Hleg u.
+  - reflexivity.
+  - destruct Hleg as [Hop Hr]. cbn [crun cfed flat_map]. rewrite <- app_assoc.
+    rewrite (cstep_E p0 op Hsp Hop).
+    destruct (cstep_law maxc p0 op Hsp Hop) as (I1 & _).
+    destruct (cstep maxc p0 op) as [[p1 d1] e1]. cbn [fst snd] in *.
+    fold (cfed r). rewrite (IH p1 I1 Hr u).
+    destruct (crun maxc p1 r) as [[p2 d2] e2]. reflexivity.
+Qed.
+End EndsMachine.
+
+(* ================================================================================================ *)
+(* Part C: the final theorems                                                                        *)
+(* ================================================================================================ *)
+
+(* ---- vocabulary on the index-level state ---- *)
+
+(* stream bytes / reply bytes still to come from (unparsed bytes of the buffer ++ bytes not yet fed u) *)
+Definition coming (p : sp) (u : bytes) : bytes :=
+  content_from (r_role (sreq p)) (r_id (sreq p)) (content_fuel (raw_bytes p ++ u)) (stream p)
+               (match sst p with SStream => true | _ => false end) (payload_rem p) (padding_rem p)
+               (raw_bytes p ++ u).
+
+Definition replies_coming (maxc : N) (p : sp) (u : bytes) : bytes :=
+  replies_all maxc (r_id (sreq p)) (content_fuel (raw_bytes p ++ u)) (sst p) (payload_rem p) (padding_rem p)
+              (raw_bytes p ++ u).
+
+(* the parser stands in front of the header that ends the active stream *)
+Definition stream_at_end (p : sp) : bool :=
+  at_terminator (r_role (sreq p)) (r_id (sreq p)) (stream p) (payload_rem p) (padding_rem p) (raw_bytes p).
+
+Lemma K_abs p u : K (abs p) u = stream_buffer p ++ coming p u.
+Proof. reflexivity. Qed.
+Lemma R_abs maxc p u : R maxc (abs p) u = output_buffer p ++ replies_coming maxc p u.
+Proof. reflexivity. Qed.
+
+Lemma coming_nil p : coming p [] = [] \/ raw_bytes p <> [].
+Proof.
+  destruct (raw_bytes p) as [|b r] eqn:Er; [left|right; discriminate].
+  unfold coming. rewrite Er. apply (CF_nil (r_role (sreq p)) (r_id (sreq p))).
+Qed.
+
+Lemma coming_exhausted p u : raw_bytes p ++ u = [] -> coming p u = [].
+Proof. intros H. unfold coming. rewrite H. apply (CF_nil (r_role (sreq p)) (r_id (sreq p))). Qed.
+
+Lemma replies_coming_exhausted maxc p u : raw_bytes p ++ u = [] -> replies_coming maxc p u = [].
+Proof. intros H. unfold replies_coming. rewrite H. apply (RA_nil maxc (r_id (sreq p))). Qed.
+
+Lemma coming_at_end p u : stream_at_end p = true -> coming p u = [] /\ E (abs p) u = true.
+Proof.
+  intros H. unfold stream_at_end in H.
+  destruct (at_terminator_EF _ _ _ _ _ _ u H) as (Hp & Hq & He & Hc).
+  split.
+  - unfold coming. rewrite Hp, Hq.
+    change (content_from ?r ?i (content_fuel ?w) ?sg ?c 0 0 ?w) with (CF r i sg c 0 0 w).
+    rewrite CF_cur0. exact Hc.
+  - unfold E. cbn [abs a_req a_stream a_prem a_pad a_raw]. rewrite Hp, Hq. exact He.
+Qed.
+
+(* ---- schedules: appending one operation ---- *)
+Section RunApp.
+Variable maxc : N.
+
+Lemma crun_snoc p ops op :
+  crun maxc p (ops ++ [op]) =
+  (fst (fst (cstep maxc (cfinal maxc p ops) op)),
+   cdelivered maxc p ops ++ snd (fst (cstep maxc (cfinal maxc p ops) op)),
+   cemitted maxc p ops ++ snd (cstep maxc (cfinal maxc p ops) op)).
+Proof.
+  unfold cfinal, cdelivered, cemitted. revert p. induction ops as [|o r IH]; intros p.
+  - cbn [app crun fst snd]. destruct (cstep maxc p op) as [[p1 d1] e1]. cbn [fst snd].
+    rewrite !app_nil_r. reflexivity.
+  - cbn [app crun]. destruct (cstep maxc p o) as [[p1 d1] e1]. rewrite (IH p1).
+    destruct (crun maxc p1 r) as [[p2 d2] e2]. cbn [fst snd]. rewrite !app_assoc. reflexivity.
+Qed.
+
+Lemma csched_legal_snoc p ops op :
+  csched_legal maxc p (ops ++ [op]) <-> csched_legal maxc p ops /\ cop_legal (cfinal maxc p ops) op.
+Proof.
+  unfold cfinal. revert p. induction ops as [|o r IH]; intros p.
+  - cbn [app csched_legal crun fst]. tauto.
+  - cbn [app csched_legal crun]. rewrite (IH (fst (fst (cstep maxc p o)))).
+    destruct (cstep maxc p o) as [[p1 d1] e1]. cbn [fst]. destruct (crun maxc p1 r) as [[p2 d2] e2]. cbn [fst].
+    tauto.
+Qed.
+
+Lemma cfed_snoc ops op : cfed (ops ++ [op]) = cfed ops ++ cfed_of op.
+Proof. unfold cfed. rewrite flat_map_app. cbn [flat_map]. rewrite app_nil_r. reflexivity. Qed.
+End RunApp.
+
+(* ---- everything the caller can reach ---- *)
+Section Reach.
+Variable maxc : N.
+
+(* states reachable from p0 through legal operations and accepted set_stream calls *)
+Inductive reach (p0 : sp) : sp -> Prop :=
+| reach_refl : reach p0 p0
+| reach_op p op : reach p0 p -> cop_legal p op -> reach p0 (fst (fst (cstep maxc p op)))
+| reach_set p s p' : reach p0 p -> set_stream p s = SetOk p' -> reach p0 p'.
+
+Theorem reach_inv p0 p : sp_inv p0 -> reach p0 p ->
+  sp_inv p /\ sreq p = sreq p0 /\ len (buffer p) = len (buffer p0).
+Proof.
+  intros H0 Hr. induction Hr as [|p op Hr IH Hleg|p s p' Hr IH Hset].
+  - split; [exact H0|]. split; reflexivity.
+  - destruct IH as (I & Q & B).
+    destruct (cstep_law maxc p op I Hleg) as (I1 & _ & B1 & _ & (_ & _ & Q1 & _)).
+    split; [exact I1|]. split; [exact (eq_trans Q1 Q)|congruence].
+  - destruct IH as (I & Q & B).
+    destruct (set_stream_call maxc p s p' I Hset) as (I1 & Q1 & B1 & _).
+    split; [exact I1|]. split; congruence.
+Qed.
+End Reach.
+
+Section Final.
+Variable maxc : N.
+
+(* ------------------------------------------------------------------------------------------------ *)
+(* C03: totality, invariants, error stickiness — for ARBITRARY (hostile) bytes                       *)
+(* ------------------------------------------------------------------------------------------------ *)
+
+(* (a) every state reachable from a state satisfying the invariant satisfies it; in particular the five
+       debug_assert_invars! inequalities hold after every legal call;
+   (b) in such a state every call that respects the caller contract returns Ok or Err — no panic, whatever
+       the bytes — an Err is AbortRequest or UnknownVersion, and is reported again by every later call with
+       nothing delivered and nothing emitted;
+   (c) over every legal schedule the bytes handed to the caller are a prefix of the specification content
+       [K] of the bytes fed (a total function of arbitrary bytes): nothing is invented, lost or reordered. *)
+Theorem C03_stream p0 p : sp_inv p0 -> reach maxc p0 p ->
+  (parsed_start p <= gap_start p /\ gap_start p <= raw_start p /\ raw_start p <= free_start p /\
+   free_start p <= len (buffer p) /\ output_start p <= len (output p)) /\
+  sp_inv p /\
+  (forall new dest, call_legal p new dest ->
+     (exists p' s, sparse maxc p new dest = StOk p' s /\ sp_inv p') \/
+     (exists p' e s, sparse maxc p new dest = StErr p' e s /\ sp_inv p' /\
+        (e = EAbortRequest \/ exists v, e = EUnknownVersion v) /\
+        forall new' dest', call_legal p' new' dest' ->
+          exists p'', sparse maxc p' new' dest' = StErr p'' e (first_status p') /\
+                      stream_buffer p'' = stream_buffer p' /\ output_buffer p'' = output_buffer p' /\
+                      raw_bytes p'' = raw_bytes p' ++ new')) /\
+  (forall ops, csched_legal maxc p ops ->
+     cno_panic maxc p ops /\
+     forall u, cdelivered maxc p ops ++ stream_buffer (cfinal maxc p ops) ++ coming (cfinal maxc p ops) u
+               = stream_buffer p ++ coming p (cfed ops ++ u)).
+Proof.
+  intros H0 Hr. destruct (reach_inv maxc p0 p H0 Hr) as (Hsp & _ & _).
+  split; [apply sp_inv_invars; exact Hsp|]. split; [exact Hsp|].
+  split.
+  - intros new dest Hleg.
+    destruct (sparse_call maxc p new dest Hsp Hleg) as [(p' & s & E1 & Hp & _)|(p' & e & s & E1 & Hp & Hk & Hst)].
+    + left. exists p', s. split; [exact E1|apply Hp].
+    + right. exists p', e, s. split; [exact E1|]. split; [apply Hp|]. split; [exact Hk|exact Hst].
+  - intros ops Hleg.
+    destruct (concrete_schedule maxc ops p Hsp Hleg) as (Np & _ & _ & _ & _ & _ & L).
+    split; [exact Np|]. intros u. destruct (L u) as (HK & _). rewrite !K_abs in HK. symmetry. exact HK.
+Qed.
+
+(* ------------------------------------------------------------------------------------------------ *)
+(* C04: replies                                                                                       *)
+(* ------------------------------------------------------------------------------------------------ *)
+
+(* For arbitrary bytes: what the caller took out of the output buffer, followed by the pending output and
+   the replies the not yet parsed bytes will cause, is exactly the reply specification [R] of the bytes
+   fed.  (Per call, Status.output is the number of bytes appended: [sparse_call].) *)
+Theorem C04_stream p0 ops u : sp_inv p0 -> csched_legal maxc p0 ops ->
+  let pf := cfinal maxc p0 ops in
+  cemitted maxc p0 ops ++ output_buffer pf ++ replies_coming maxc pf u
+  = output_buffer p0 ++ replies_coming maxc p0 (cfed ops ++ u).
+Proof.
+  intros Hsp Hleg pf.
+  destruct (concrete_schedule maxc ops p0 Hsp Hleg) as (_ & _ & _ & _ & _ & _ & L).
+  destruct (L u) as (_ & HR & _). rewrite !R_abs in HR. symmetry. exact HR.
+Qed.
+
+(* For a stream parser converted from a finished request parser and a wire that continues with the
+   records rs (then arbitrary bytes t): everything emitted so far, plus what is pending, is a prefix of
+   the replies the specification prescribes for rs, record by record ([reply_for _ (InStream id)]), up to
+   the first AbortRequest of this request; and all of it once nothing is left to parse. *)
+Theorem C04_stream_rcds rp r sp0 rs t ops u :
+  parser_ok rp -> st rp = Done r -> into_stream_parser rp = inl sp0 ->
+  Forall rcd_ok rs -> held rp ++ cfed ops ++ u = enc_rcds rs ++ t ->
+  csched_legal maxc sp0 ops ->
+  let pf := cfinal maxc sp0 ops in
+  let owed := replies_rcds maxc (r_id r) rs ++
+              (if replies_open maxc (r_id r) rs then RA maxc (r_id r) SSkip 0 0 t else []) in
+  cemitted maxc sp0 ops ++ output_buffer pf ++ replies_coming maxc pf u = owed /\
+  (raw_bytes pf ++ u = [] -> cemitted maxc sp0 ops ++ output_buffer pf = owed).
+Proof.
+  intros Hok Hst E0 Hrs Hw Hleg pf owed.
+  destruct (into_stream_parser_inv rp r Hok Hst) as (p0 & E0' & Hsp & _ & _ & _ & _ & Ho & _ & _ & _ & Habs).
+  rewrite E0 in E0'. injection E0' as <-.
+  pose proof (C04_stream sp0 ops u Hsp Hleg) as H. cbv zeta in H. fold pf in H.
+  assert (Hspec : output_buffer sp0 ++ replies_coming maxc sp0 (cfed ops ++ u) = owed).
+  { rewrite <- R_abs. unfold R. rewrite Habs.
+    cbn [a_B a_space a_parsed a_raw a_out a_req a_stream a_prem a_pad a_st app].
+    change (replies_all maxc (r_id r) (content_fuel ?w) SSkip 0 0 ?w) with (RA maxc (r_id r) SSkip 0 0 w).
+    rewrite Hw. apply RA_rcds. exact Hrs. }
+  rewrite Hspec in H. split; [exact H|].
+  intros Hex. rewrite (replies_coming_exhausted maxc pf u Hex), app_nil_r in H. exact H.
+Qed.
+
+(* ------------------------------------------------------------------------------------------------ *)
+(* C05: the bytes handed back are exactly the unparsed suffix                                         *)
+(* ------------------------------------------------------------------------------------------------ *)
+Theorem C05_stream p0 ops : sp_inv p0 -> csched_legal maxc p0 ops ->
+  let pf := cfinal maxc p0 ops in
+  (* the unparsed bytes are a suffix of everything that was put in front of the parser: bytes only leave
+     at the front (parsed) and arrive at the back (fed) *)
+  (exists consumed, raw_bytes p0 ++ cfed ops = consumed ++ raw_bytes pf) /\
+  (* at a record boundary the conversions hand over exactly these bytes; elsewhere they refuse *)
+  (is_record_boundary pf = true -> into_input pf = Some (raw_bytes pf)) /\
+  (is_record_boundary pf = true -> output_buffer pf = [] ->
+     exists rp', into_request_parser pf = ConvOk rp' /\
+                 held rp' = raw_bytes pf /\ cap rp' = len (buffer p0) /\ st rp' = Header) /\
+  (is_record_boundary pf = false -> into_input pf = None /\ into_request_parser pf = ConvInterrupted).
+Proof.
+  intros Hsp Hleg pf.
+  destruct (concrete_schedule maxc ops p0 Hsp Hleg) as (_ & [HRI _] & _ & _ & HB & Hsuf & _). fold pf in HRI, HB, Hsuf.
+  split; [exact Hsuf|].
+  split.
+  { intros Hb. rewrite (into_input_refines pf HRI). unfold ainto_input.
+    change (a_boundary (abs pf)) with (is_record_boundary pf). rewrite Hb. reflexivity. }
+  split.
+  { intros Hb Ho. destruct (into_request_parser_ok pf HRI Hb Ho) as (rp' & E1 & Hh & Hc & Hs).
+    exists rp'. split; [exact E1|]. split; [exact Hh|]. split; [|exact Hs].
+    rewrite Hc. exact HB. }
+  intros Hb. split.
+  - rewrite (into_input_refines pf HRI). unfold ainto_input.
+    change (a_boundary (abs pf)) with (is_record_boundary pf). rewrite Hb. reflexivity.
+  - unfold into_request_parser. rewrite Hb. reflexivity.
+Qed.
+
+(* ------------------------------------------------------------------------------------------------ *)
+(* C02: delivery of the active stream                                                                 *)
+(* ------------------------------------------------------------------------------------------------ *)
+
+(* A request parser has finished the preamble (Done r, leftover bytes [held rp]) and is converted.  The
+   wire after the preamble consists of the records rs followed by arbitrary bytes t; it reaches the
+   parser as [held rp], then the chunks the schedule feeds ([cfed ops]: ANY chunking, interleaved with any
+   consume_stream / compress / consume_output calls), then the not yet fed rest u.  Then:
+   - no call panics, the invariant holds;
+   - the bytes handed to the caller, then the stream buffer, then what is still to come, are exactly the
+     content of the role's first input stream in the record list — every byte once and in order;
+   - once nothing is left to parse, or the parser stands at the terminator, everything has been delivered;
+   - if the parser stands at the terminator, the stream really has ended in the wire: a terminator of the
+     stream occurs in rs before any AbortRequest (or rs has not ended the stream and the terminator lies
+     in t). *)
+Theorem C02_delivery rp r sp0 rs t ops u :
+  parser_ok rp -> st rp = Done r -> into_stream_parser rp = inl sp0 ->
+  Forall rcd_ok rs -> held rp ++ cfed ops ++ u = enc_rcds rs ++ t ->
+  csched_legal maxc sp0 ops ->
+  let role := r_role r in let id := r_id r in
+  let sg := next_input_stream role None in
+  let pf := cfinal maxc sp0 ops in
+  let whole := content_rcds role id sg rs ++ (if content_open role id sg rs then CF role id sg false 0 0 t else []) in
+  cno_panic maxc sp0 ops /\ sp_inv pf /\ stream pf = sg /\ sreq pf = r /\
+  cdelivered maxc sp0 ops ++ stream_buffer pf ++ coming pf u = whole /\
+  (raw_bytes pf ++ u = [] \/ stream_at_end pf = true -> cdelivered maxc sp0 ops ++ stream_buffer pf = whole) /\
+  (stream_at_end pf = true ->
+     ended_rcds role id sg rs = true \/ (content_open role id sg rs = true /\ EF role id sg 0 0 t = true)).
+Proof.
+  intros Hok Hst E0 Hrs Hw Hleg role id sg pf whole.
+  destruct (into_stream_parser_inv rp r Hok Hst) as (p0 & E0' & Hsp & Hq0 & Hs0 & _ & _ & _ & _ & _ & _ & Habs).
+  rewrite E0 in E0'. injection E0' as <-.
+  destruct (concrete_schedule maxc ops sp0 Hsp Hleg) as (Np & Ipf & Hs & Hq & _ & _ & L). fold pf in Ipf, Hs, Hq, L.
+  assert (Hsel : sel_ok sg) by apply next_input_none_ok.
+  assert (HK : cdelivered maxc sp0 ops ++ stream_buffer pf ++ coming pf u = whole).
+  { destruct (L u) as (HK & _). rewrite (K_abs pf) in HK. rewrite <- HK. unfold K, cur_of. rewrite Habs.
+    cbn [a_B a_space a_parsed a_raw a_out a_req a_stream a_prem a_pad a_st app].
+    change (content_from (r_role r) (r_id r) (content_fuel ?w) ?s false 0 0 ?w) with (CF role id s false 0 0 w).
+    rewrite Hw. apply CF_rcds; assumption. }
+  assert (HE : E (abs pf) u = ended_rcds role id sg rs || (content_open role id sg rs && EF role id sg 0 0 t)).
+  { unfold pf. rewrite <- (csched_E maxc ops sp0 Hsp Hleg u). unfold E. rewrite Habs.
+    cbn [a_B a_space a_parsed a_raw a_out a_req a_stream a_prem a_pad a_st].
+    rewrite Hw. apply EF_rcds; assumption. }
+  split; [exact Np|]. split; [exact Ipf|]. split; [rewrite Hs; exact Hs0|]. split; [rewrite Hq; exact Hq0|].
+  split; [exact HK|].
+  split.
+  - intros [Hex|Hend].
+    + rewrite (coming_exhausted pf u Hex), app_nil_r in HK. exact HK.
+    + destruct (coming_at_end pf u Hend) as [Hc _]. rewrite Hc, app_nil_r in HK. exact HK.
+  - intros Hend. destruct (coming_at_end pf u Hend) as [_ He]. rewrite HE in He.
+    apply orb_true_iff in He. destruct He as [He|He]; [left; exact He|right].
+    apply andb_true_iff in He. exact He.
+Qed.
+
+(* The same seen from the call that reports it: a schedule, then one more parse call that returns Ok with
+   Status.stream_end = true (a stream being active).  Then the bytes delivered up to and including this
+   call, plus the stream buffer, are the WHOLE content of the stream, and the stream has ended in the
+   wire.  Conversely stream_end is reported exactly when the parser stands at the terminator. *)
+Theorem C02_stream_end rp r sp0 rs t ops new dest u p' s :
+  parser_ok rp -> st rp = Done r -> into_stream_parser rp = inl sp0 ->
+  Forall rcd_ok rs -> held rp ++ cfed ops ++ new ++ u = enc_rcds rs ++ t ->
+  csched_legal maxc sp0 ops -> call_legal (cfinal maxc sp0 ops) new dest ->
+  sparse maxc (cfinal maxc sp0 ops) new dest = StOk p' s ->
+  let role := r_role r in let id := r_id r in
+  let sg := next_input_stream role None in
+  let whole := content_rcds role id sg rs ++ (if content_open role id sg rs then CF role id sg false 0 0 t else []) in
+  sg <> None ->
+  s_end s = stream_at_end p' /\
+  (s_end s = true ->
+     cdelivered maxc sp0 ops ++ s_dest s ++ stream_buffer p' = whole /\
+     (ended_rcds role id sg rs = true \/ (content_open role id sg rs = true /\ EF role id sg 0 0 t = true))).
+Proof.
+  intros Hok Hst E0 Hrs Hw Hleg Hcall Hres role id sg whole Hsg.
+  set (ops' := ops ++ [CParse new dest]).
+  assert (Hleg' : csched_legal maxc sp0 ops') by (apply csched_legal_snoc; split; assumption).
+  assert (Hw' : held rp ++ cfed ops' ++ u = enc_rcds rs ++ t).
+  { unfold ops'. rewrite cfed_snoc. cbn [cfed_of]. rewrite <- app_assoc. exact Hw. }
+  assert (Hrun : crun maxc sp0 ops' = (p', cdelivered maxc sp0 ops ++ s_dest s, cemitted maxc sp0 ops ++ [])).
+  { unfold ops'. rewrite crun_snoc. cbn [cstep]. rewrite Hres. reflexivity. }
+  destruct (C02_delivery rp r sp0 rs t ops' u Hok Hst E0 Hrs Hw' Hleg') as (_ & _ & _ & _ & _ & Hall & Hend).
+  unfold cfinal, cdelivered in Hall, Hend. rewrite Hrun in Hall, Hend. cbn [fst snd] in Hall, Hend.
+  fold role id sg whole in Hall, Hend.
+  destruct (into_stream_parser_inv rp r Hok Hst) as (p0 & E0' & Hsp & _ & Hs0 & _).
+  rewrite E0 in E0'. injection E0' as <-.
+  destruct (concrete_schedule maxc ops sp0 Hsp Hleg) as (_ & Ipf & Hs & _).
+  assert (Hse : s_end s = stream_at_end p').
+  { destruct (sparse_call maxc _ new dest Ipf Hcall) as [(p2 & s2 & E2 & Hp & He)|(p2 & e2 & s2 & E2 & _)];
+      rewrite Hres in E2; [|discriminate E2].
+    injection E2 as <- <-. destruct Hp as (_ & Hs' & Hq' & _).
+    rewrite He. unfold stream_at_end. rewrite Hs', Hq'.
+    destruct (stream (cfinal maxc sp0 ops)) as [x|] eqn:Ex; [reflexivity|].
+    exfalso. apply Hsg. unfold sg, role. rewrite <- Hs0, <- Hs. reflexivity. }
+  split; [exact Hse|]. intros Ht. rewrite Hse in Ht.
+  split; [|apply Hend; exact Ht].
+  rewrite app_assoc. apply Hall. right. exact Ht.
+Qed.
+
+(* ------------------------------------------------------------------------------------------------ *)
+(* C18: only the active stream is delivered; later streams are neither consumed nor lost             *)
+(* ------------------------------------------------------------------------------------------------ *)
+
+(* First epoch: any legal schedule ops1 while an earlier stream is active.  Then set_stream(Some sg) for a
+   later stream sg — it is always accepted.  Second epoch: any legal schedule ops2.  What the second epoch
+   hands to the caller, then its stream buffer, then what is still to come, is exactly the content of
+   stream sg counted from the ORIGINAL position: no byte of sg was consumed or lost during the first epoch,
+   and no byte of any other stream is delivered in the second.  The reply channel is unaffected by the
+   switch. *)
+Theorem C18_only_active p0 sg ops1 ops2 u : sp_inv p0 -> later_stream (abs p0) sg ->
+  csched_legal maxc p0 ops1 ->
+  exists p1, set_stream (cfinal maxc p0 ops1) (Some sg) = SetOk p1 /\
+    (csched_legal maxc p1 ops2 ->
+     let pf := cfinal maxc p1 ops2 in
+     cno_panic maxc p0 ops1 /\ cno_panic maxc p1 ops2 /\ sp_inv pf /\ stream pf = Some sg /\ sreq pf = sreq p0 /\
+     cdelivered maxc p1 ops2 ++ stream_buffer pf ++ coming pf u
+       = F (Some sg) (abs p0) (cfed ops1 ++ cfed ops2 ++ u) /\
+     cemitted maxc p0 ops1 ++ cemitted maxc p1 ops2 ++ output_buffer pf ++ replies_coming maxc pf u
+       = output_buffer p0 ++ replies_coming maxc p0 (cfed ops1 ++ cfed ops2 ++ u)).
+Proof.
+  intros Hsp Hl Hleg1.
+  destruct (concrete_schedule maxc ops1 p0 Hsp Hleg1) as (Np1 & I1 & S1 & Q1 & _ & _ & L1).
+  assert (Hl1 : later_stream (abs (cfinal maxc p0 ops1)) sg).
+  { unfold later_stream in *. change (a_stream (abs ?p)) with (stream p) in *.
+    change (a_req (abs ?p)) with (sreq p) in *. rewrite S1, Q1. exact Hl. }
+  destruct (set_stream_later (cfinal maxc p0 ops1) sg I1 Hl1) as (p1 & Eset & Hne).
+  exists p1. split; [exact Eset|]. intros Hleg2 pf.
+  destruct (set_stream_call maxc _ _ p1 I1 Eset) as (I2 & Q2 & _ & _ & _ & HR & HF & _ & Hdiff).
+  destruct (Hdiff Hne) as (S2 & _ & HK).
+  destruct (concrete_schedule maxc ops2 p1 I2 Hleg2) as (Np2 & I3 & S3 & Q3 & _ & _ & L2). fold pf in I3, S3, Q3, L2.
+  split; [exact Np1|]. split; [exact Np2|]. split; [exact I3|]. split; [congruence|]. split; [congruence|].
+  destruct (L1 (cfed ops2 ++ u)) as (_ & R1 & F1). destruct (L2 u) as (K2 & R2 & _).
+  split.
+  - rewrite <- K_abs, <- K2, HK. symmetry. apply F1. exact Hl.
+  - rewrite <- !R_abs. rewrite R1, <- HR, R2. reflexivity.
+Qed.
+
+(* ... and for a record list: after a finished preamble of a request whose role has a second input stream,
+   the second epoch delivers exactly [content_rcds role id (Some sg) rs] — all of sg's records in the wire,
+   including those that arrived while the first stream was still active. *)
+Theorem C18_only_active_rcds rp r sp0 sg rs t ops1 ops2 u :
+  parser_ok rp -> st rp = Done r -> into_stream_parser rp = inl sp0 ->
+  later_stream (abs sp0) sg ->
+  Forall rcd_ok rs -> held rp ++ cfed ops1 ++ cfed ops2 ++ u = enc_rcds rs ++ t ->
+  csched_legal maxc sp0 ops1 ->
+  exists p1, set_stream (cfinal maxc sp0 ops1) (Some sg) = SetOk p1 /\
+    (csched_legal maxc p1 ops2 ->
+     let pf := cfinal maxc p1 ops2 in
+     let role := r_role r in let id := r_id r in
+     let whole := content_rcds role id (Some sg) rs ++
+                  (if content_open role id (Some sg) rs then CF role id (Some sg) false 0 0 t else []) in
+     cno_panic maxc p1 ops2 /\ sp_inv pf /\ stream pf = Some sg /\
+     cdelivered maxc p1 ops2 ++ stream_buffer pf ++ coming pf u = whole /\
+     (raw_bytes pf ++ u = [] \/ stream_at_end pf = true -> cdelivered maxc p1 ops2 ++ stream_buffer pf = whole)).
+Proof.
+  intros Hok Hst E0 Hl Hrs Hw Hleg1.
+  destruct (into_stream_parser_inv rp r Hok Hst) as (p0 & E0' & Hsp & _ & _ & _ & _ & _ & _ & _ & _ & Habs).
+  rewrite E0 in E0'. injection E0' as <-.
+  destruct (C18_only_active sp0 sg ops1 ops2 u Hsp Hl Hleg1) as (p1 & Eset & H).
+  exists p1. split; [exact Eset|]. intros Hleg2 pf role id whole.
+  destruct (H Hleg2) as (_ & Np2 & I3 & S3 & _ & HK & _). fold pf in I3, S3, HK.
+  assert (Hsel : sel_ok (Some sg)).
+  { unfold later_stream in Hl. destruct (a_stream (abs sp0)) as [c|]; [|contradiction].
+    apply (cmp_gt_input _ _ _ Hl). }
+  assert (HF : F (Some sg) (abs sp0) (cfed ops1 ++ cfed ops2 ++ u) = whole).
+  { unfold F. rewrite Habs. cbn [a_B a_space a_parsed a_raw a_out a_req a_stream a_prem a_pad a_st].
+    change (content_from (r_role r) (r_id r) (content_fuel ?w) ?s false 0 0 ?w) with (CF role id s false 0 0 w).
+    rewrite Hw. apply CF_rcds; assumption. }
+  rewrite HF in HK.
+  split; [exact Np2|]. split; [exact I3|]. split; [exact S3|]. split; [exact HK|].
+  intros [Hex|Hend].
+  - rewrite (coming_exhausted pf u Hex), app_nil_r in HK. exact HK.
+  - destruct (coming_at_end pf u Hend) as [Hc _]. rewrite Hc, app_nil_r in HK. exact HK.
+Qed.
+End Final.
+
 Print Assumptions sparse_call.
 Print Assumptions concrete_schedule_law.
 Print Assumptions concrete_schedule.
@@ -670,3 +1513,15 @@ Print Assumptions into_stream_parser_inv.
 Print Assumptions into_stream_parser_targets.
 Print Assumptions CF_rcds.
 Print Assumptions RA_rcds.
+Print Assumptions EF_rcds.
+Print Assumptions ends_law.
+Print Assumptions csched_E.
+Print Assumptions reach_inv.
+Print Assumptions C02_delivery.
+Print Assumptions C02_stream_end.
+Print Assumptions C03_stream.
+Print Assumptions C04_stream.
+Print Assumptions C04_stream_rcds.
+Print Assumptions C05_stream.
+Print Assumptions C18_only_active.
+Print Assumptions C18_only_active_rcds.
